@@ -306,7 +306,9 @@ def try_defn(d):
     try:
         L.add_model(Model(name=d["model"], primary_key=(["id", "id2"] if d["composite"] else "id"),
                           dimensions=[Dimension(name=d["dim"], type="categorical", sql="s0", supported_granularities=d.get("sg_cat")),
-                                      Dimension(name="t_" + d["dim"][:6], type="time", granularity="day", sql="ts", supported_granularities=d.get("sg_time"))],
+                                      # the time dimension's SQL is a bare column, or an expression over it written with or without parentheses (chosen from the names, not from the random stream)
+                                      Dimension(name="t_" + d["dim"][:6], type="time", granularity="day", sql=["ts", "ts + INTERVAL 1 DAY", "ts::timestamp", "CAST(ts AS TIMESTAMP)", "ts - INTERVAL 2 HOUR"][(len(d["dim"]) + len(d["meas"])) % 5],
+                                                supported_granularities=d.get("sg_time"))],
                           # a second segment names the model's own DIMENSION (whose name is not a column of the source) instead of the raw column
                           metrics=mets, segments=[Segment(name=d["seg"], sql="{model}.s0 = 'a'")] + ([Segment(name="zz_by_dim", sql="{model}.%s = 'a'" % d["dim"])] if d["dim"] not in COLS else []), **src))
     except Exception as e:
